@@ -214,12 +214,15 @@ impl boxworks::TextPreprocessor for TextPreprocessorImpl {
             // TeX.2021.1043
             if self.space_factor.0 >= 2000 && !self.params.extra_space_skip.is_zero() {
                 self.params.extra_space_skip
-            } else if !self.params.space_skip.is_zero() {
-                self.params.space_skip
             } else {
-                // TeX.2021.1042
-                let mut g = self.fonts[self.current_font as usize].default_space;
-                // TeX.2021.1044
+                let mut g = if !self.params.space_skip.is_zero() {
+                    self.params.space_skip
+                } else {
+                    // TeX.2021.1042
+                    self.fonts[self.current_font as usize].default_space
+                };
+                // TeX.2021.1044: \spaceskip is modified by the space factor
+                // in the same way as the font's inter-word glue.
                 if self.space_factor.0 >= 2000 {
                     g.width += self.fonts[self.current_font as usize].extra_space;
                 }
@@ -397,6 +400,25 @@ mod tests {
                 },
                 extra_space_skip: common::Glue {
                     width: common::Scaled::parse_from_string("5.0pt").unwrap(),
+                    ..Default::default()
+                },
+            },
+        ),
+        (
+            space_skip_is_scaled_by_space_factor,
+            "a, b. c",
+            r##"
+                chars("a,")
+                glue(3.0pt, 1.25pt, 0.79999pt)
+                chars("b.")
+                glue(4.11111pt, 3.0pt, 0.33333pt)
+                chars("c")
+            "##,
+            params: Params {
+                space_skip: common::Glue {
+                    width: common::Scaled::ONE * 3,
+                    stretch: common::Scaled::ONE,
+                    shrink: common::Scaled::ONE,
                     ..Default::default()
                 },
             },
